@@ -40,7 +40,10 @@ SubMD(want, got) == \A k \in DOMAIN want :
 
 -----------------------------------------------------------------------------
 StatusOK(e, c, v) ==
-  IF IsGrpc(c.proto) THEN
+  IF v.code = AnyError THEN   \* the request could not be read: some error, whatever its code
+    /\ e.cl.status.present /\ e.cl.status.code # 0
+    /\ (~IsGrpc(c.proto) => e.cl.http >= 400)
+  ELSE IF IsGrpc(c.proto) THEN
     /\ e.cl.status.present /\ e.cl.status.code = v.code
     /\ (v.failed => e.cl.status.msgequal /\ e.cl.status.detequal)
   ELSE IF c.proto = "twirp" THEN
@@ -61,8 +64,11 @@ RecvSeen(e) == [k \in DOMAIN e.h.recv |->
 \* what a handler sees when it keeps receiving after an error is not specified
 UptoError(s) == LET es == {k \in DOMAIN s : s[k].r = "error"} IN
                 IF es = {} THEN s ELSE SubSeq(s, 1, CHOOSE k \in es : \A k2 \in es : k <= k2)
+\* a unary method whose request cannot be read never reaches the handler
+NotEntered(c, v) == c.shape = "unary" /\ v.code = AnyError
 RecvOK(e, c, v) ==
   \/ RecvSeen(e) = v.recvRes
+  \/ (NotEntered(c, v) /\ e.h.recv = <<>>)
   \/ (Len(RecvSeen(e)) = Len(v.recvRes) /\ UptoError(RecvSeen(e)) = UptoError(v.recvRes)
       /\ \E k \in DOMAIN v.recvRes : v.recvRes[k].r = "error")
   \/ /\ c.proto \in {"http", "twirp"} /\ ClientStreams(c.shape) /\ c.sent = <<>> /\ v.recvRes # <<>>
@@ -103,20 +109,20 @@ MetadataInOK(e) ==
 
 \* interceptors and stats
 ICallsOK(e, c, v) ==
-  LET want == IF c.shape = "unary" THEN (IF Opt(e, "unaryInt") THEN 1 ELSE 0)
+  LET want == IF c.shape = "unary" THEN (IF Opt(e, "unaryInt") /\ ~NotEntered(c, v) THEN 1 ELSE 0)
               ELSE (IF Opt(e, "streamInt") THEN 1 ELSE 0) IN
   /\ Len(e.icalls) = want
   /\ want = 1 =>
        /\ e.icalls[1].meth = e.h.method
        /\ e.icalls[1].kind = (IF c.shape = "unary" THEN "unary" ELSE "stream")
        /\ (c.shape # "unary" => e.icalls[1].cs = ClientStreams(c.shape) /\ e.icalls[1].ss = ServerStreams(c.shape))
-       /\ e.icalls[1].err = (IF v.failed THEN v.code ELSE -1)
+       /\ (IF v.code = AnyError THEN e.icalls[1].err > 0 ELSE e.icalls[1].err = (IF v.failed THEN v.code ELSE -1))
 Count(s, t) == Cardinality({k \in DOMAIN s : s[k].t = t})
 StatsOK(e, c, v) ==
   Opt(e, "stats") =>
     LET st == e.stats  n == Len(e.stats) IN
     /\ n >= 4 /\ st[1].t = "tag" /\ st[2].t = "inheader" /\ st[3].t = "begin" /\ st[n].t = "end"
-    /\ st[1].meth = e.h.method
+    /\ (e.h.invoked = 1 => st[1].meth = e.h.method)
     /\ st[3].cs = ClientStreams(c.shape) /\ st[3].ss = ServerStreams(c.shape)
     /\ \A k \in 4..(n - 1) : st[k].t \in {"inpayload", "outheader", "outpayload", "outtrailer"}
     /\ \A k \in 4..(n - 1) : st[k].t = "outtrailer" => k = n - 1
@@ -127,7 +133,7 @@ StatsOK(e, c, v) ==
     /\ Count(st, "inpayload") >= Len(v.recvd) -
           (IF IsGrpc(c.proto) THEN 0 ELSE Cardinality({k \in DOMAIN v.recvd : c.sent[v.recvd[k]] = 0}))
     /\ Count(st, "outpayload") = Len(v.sent)
-    /\ st[n].err = (IF v.failed THEN v.code ELSE -1)
+    /\ (IF v.code = AnyError THEN st[n].err > 0 ELSE st[n].err = (IF v.failed THEN v.code ELSE -1))
 NoStats(e) == ~Opt(e, "stats") => e.stats = <<>>
 
 -----------------------------------------------------------------------------
@@ -135,7 +141,7 @@ Judge(e) ==
   LET c == WithImplicitRecv(CaseOf(e))
       v == View(c) IN
   IF e.crash # "" THEN {"Crash"}
-  ELSE IF e.h.invoked # 1 THEN {"Invoked"}
+  ELSE IF e.h.invoked # (IF NotEntered(c, v) THEN 0 ELSE 1) THEN {"Invoked"}
   \* a reply larger than the send limit may be refused or delivered (C08 only forbids refusing replies
   \* within the limit): such RPCs are judged on the request side only
   ELSE IF c.maxsend > 0 /\ \E k \in DOMAIN e.replies : e.replies[k] > c.maxsend
@@ -149,7 +155,7 @@ Judge(e) ==
    \cup (IF ~TrlOK(e, c, v) THEN {"MetadataOutTrailer"} ELSE {})
    \cup (IF ~HdrResOK(e, v) THEN {"HeaderPhase"} ELSE {})
    \cup (IF ~ContentTypeOK(e, c) THEN {"ReservedUnforgeable"} ELSE {})
-   \cup (IF ~MetadataInOK(e) THEN {"MetadataIn"} ELSE {})
+   \cup (IF e.h.invoked = 1 /\ ~MetadataInOK(e) THEN {"MetadataIn"} ELSE {})
    \cup (IF ~ICallsOK(e, c, v) THEN {"InterceptOnce"} ELSE {})
    \cup (IF ~StatsOK(e, c, v) \/ ~NoStats(e) THEN {"StatsWellFormed"} ELSE {})
 
